@@ -1,5 +1,6 @@
 """C16 - the database codec never silently changes a circuit."""
 import io
+import itertools
 import random
 
 from .. import gen
@@ -57,6 +58,18 @@ def sources(tier, seed, ctx):
                 if any(t in gen.NULLARY and ops for t, ops in net[1]):
                     variant = 'plain'
             srcs.append({'k': 'codec', 'net': [net[0], net[1]], 'outs': outs, 'variant': variant, 'vs': n + seed, 'db': n % 9 == 0})
+    # circuits that carry the labels the DECODER generates (gate_0, gate_1, ...) - what a caller holds after reading a
+    # circuit back - with the inputs declared in another order than their numbers, asymmetric gates on top
+    for j, perm in enumerate(itertools.permutations(range(3))):
+        for t in ('GT', 'LEQ', 'AND'):
+            names = [f'gate_{perm[k]}' for k in range(3)] + ['gate_3', 'gate_4']
+            srcs.append({'k': 'codec', 'net': [3, [[t, [1, 2]], ['LT', [4, 3]]]], 'outs': [5, 4, 1], 'variant': 'plain', 'vs': j, 'db': j % 2 == 0,
+                         'labels': names})
+    # ... and the history itself: encoded, decoded, the decoded circuit's inputs reordered, encoded again
+    for j in range(12 if tier == 'quick' else 100):
+        ni = rng.choice([2, 3, 3, 4])
+        net = gen.random_netlist(rng, ni=ni, ng=rng.randint(1, 6), types=['AND', 'GT', 'LT', 'XOR', 'NOT', 'GEQ', 'OR'], amax=2)
+        srcs.append({'k': 'codec', 'net': [net[0], net[1]], 'outs': [ni + len(net[1])], 'variant': 'plain', 'vs': j, 'db': False, 'reencode': True})
     # size boundaries of the word-size computation: gate-free circuits and short NOT chains whose input / gate /
     # output counts sit at powers of two (and next to them), with fewer, as many and more outputs than inputs
     for ni in range(1, 10):
@@ -149,10 +162,34 @@ def record(src):
             case['enc_dberr'] = isinstance(e, CircuitsDatabaseError)
             return case
         try:
-            case['dec'] = project(decode_circuit(data))
+            decoded = decode_circuit(data)
+            case['dec'] = project(decoded)
         except Exception as e:
+            decoded = None
             case['dec_exc'] = type(e).__name__
             case['dec'] = case['c']
+        if src.get('reencode') and decoded is not None and decoded.input_size >= 2:
+            # the decoded circuit (decoder-generated labels) with its inputs in another order is a circuit like any other
+            try:
+                order = list(decoded.inputs)
+                order = order[1:] + order[:1]
+                decoded.set_inputs(order)
+                second = {'kind': 'codec', 'c': project(decoded), 'enc_exc': '', 'enc_dberr': False, 'bytes': [], 'dec_exc': '',
+                          'src': dict(src, second=True)}
+                try:
+                    data2 = encode_circuit(decoded)
+                    second['bytes'] = list(data2)
+                    try:
+                        second['dec'] = project(decode_circuit(data2))
+                    except Exception as e:
+                        second['dec_exc'] = type(e).__name__
+                        second['dec'] = second['c']
+                except Exception as e:
+                    second['enc_exc'] = type(e).__name__
+                    second['enc_dberr'] = isinstance(e, CircuitsDatabaseError)
+                return [case, second]
+            except Exception:
+                pass
         if src.get('db'):
             case['db_exc'] = ''
             try:
